@@ -67,8 +67,13 @@ func c03Gen(tier string, seed int64) []core.Case {
 		pats = append(pats, "huge", "geP", "congruent")
 	}
 	k := 0
+	seen := map[string]bool{}
 	add := func(curve string, n, t int, pat, sch string, cost float64) {
 		id := fmt.Sprintf("%s/n%d-t%d/%s/%s", curve, n, t, pat, sch)
+		if seen[id] {
+			return
+		}
+		seen[id] = true
 		cs = append(cs, core.Case{ID: id, Class: id, Kind: "keygen", Cost: cost, P: core.P{"curve": curve, "n": n, "t": t, "pat": pat, "sched": sch}})
 	}
 	if tier == "thorough" {
